@@ -27,7 +27,9 @@
 (declare-fun pow256 (Int) Int)
 (declare-fun bePad (Int Int) Bytes)          ; value as exactly n big-endian bytes
 (assert (forall ((c Int)) (! (<= (curveOrder c) (pow256 (curveBytes c))) :pattern ((curveBytes c)))))
-(assert (forall ((v Int) (n Int)) (! (= (be (bePad v n)) v) :pattern ((bePad v n)))))
+; (guarded: FillBytes writes a non-negative value that fits; unguarded, v = -1 contradicts be >= 0 of bytescopy.smt2 and
+; every goal over these preludes was provable by a solver that found the contradiction - found with seeded C08-5)
+(assert (forall ((v Int) (n Int)) (! (=> (and (>= v 0) (< v (pow256 n))) (= (be (bePad v n)) v)) :pattern ((bePad v n)))))
 (declare-fun ecPoint (Int Int Int) Bytes)    ; uncompressed point of a curve
 (declare-fun pkcs1priv (Int) Bytes)          ; PKCS#1 DER of an RSA private key object
 (declare-fun pkcs1pub (Int Int) Bytes)       ; PKCS#1 RSAPublicKey DER of (modulus, public exponent)
